@@ -372,9 +372,16 @@ func edScalarOf(p *edPoint, x []byte) bool {
 func EdPointVarTimeDoubleScalarBaseMult(v interface{}, a interface{}, A interface{}, b interface{}) interface{} {
 	pA := edGet(A)
 	ka, sb := scBytesOf(a), scBytesOf(b)
-	// [a]O + [0]B = O
-	if edIsIdentity(pA) && vBytesEq(sb, make([]byte, 32)) {
-		edSet(v, &edPoint{base: edIdentityEnc()})
+	// [a]O + [b]B = [b]B  (= O for b = 0)
+	if edIsIdentity(pA) {
+		if vBytesEq(sb, make([]byte, 32)) {
+			edSet(v, &edPoint{base: edIdentityEnc()})
+			return v
+		}
+		if edBasePoint == nil {
+			edBasePoint = &edPoint{base: vUFN("ed_basepoint", 32)}
+		}
+		edSet(v, edMul(&edPoint{base: edBasePoint.base}, clone(sb)))
 		return v
 	}
 	// [a]T2 + [0]B = T2 or O by the parity of a
